@@ -60,6 +60,7 @@ def gen(rng):
     if wm["cfg"].get("structured"):
         tags.add("structured")
     knobs = {"threads": rng.randrange(1, 5), "config_arg": rng.choice(["rel", "abs", "dotrel"]), "cwd": "proj"}
+    knobs = scen.env_knobs(rng, knobs)
     plan = {"seed": rng.getrandbits(48) | 1, "perm": True, "faults": []}
     return wm, knobs, plan, tags
 
